@@ -1,6 +1,6 @@
 /- Driver ops `exportrt` and `import` (C13) -/
 import Driver.Alg
-import Carapace.Model.Export
+import Carapace.Model.ExportDecode
 
 namespace Driver
 open Lean Carapace Carapace.Model
@@ -25,6 +25,21 @@ def runExportRT (inp out : Json) : Json :=
     | none => false
   let same := model == doc || (valueTies && model.length == doc.length)
   let imported := parseResult (jget out "imported")
+  -- the model of the reading side (`parseExport`, about which C13_document_roundtrip is proved), run on the REAL bytes:
+  -- it must accept them and hold what the real ActionImport holds (skipped for the rare documents beyond 30000 characters)
+  let decoded : Option (Option ExportDoc) := if doc.length > 30000 then none else some (parseExport doc)
+  let decodeDiff : String :=
+    match decoded, imported with
+    | some none, _ => "model decoder rejects the real document"
+    | some (some d), some r =>
+      if d.messages != r.1.messages then s!"model decoder messages differ from ActionImport: got {showInvoked r}"
+      else if SuffixMatcher.add [] d.nospace != r.1.nospace then "model decoder nospace differs from ActionImport"
+      else if d.usage != r.1.usage then "model decoder usage differs from ActionImport"
+      else if canonValuesUid (d.values.getD []) != canonValuesUid r.2 then s!"model decoder values differ from ActionImport: got {showInvoked r}"
+      else if d.version != jS out "version" then "model decoder version differs"
+      else ""
+    | _, _ => ""
+  let same := same && decodeDiff == ""
   let fails : List AFail :=
     match imported with
     | none => [{ prop := "C13", code := "import_panics", detail := (jget out "imported").compress }]
@@ -32,9 +47,10 @@ def runExportRT (inp out : Json) : Json :=
       let want := valsIn.getD []
       (if r.1 == m then [] else [{ prop := "C13", code := "meta_changed", detail := s!"got {showInvoked r}" }]) ++
       (if canonValuesUid r.2 == canonValuesUid want then [] else [{ prop := "C13", code := "values_changed", detail := s!"got {showInvoked r} want {showInvoked (m, want)}" }])
-  Json.mkObj [("same", Json.bool same), ("diff", Json.str (if same then "" else s!"model {String.ofList model} real {String.ofList doc}")),
+  Json.mkObj [("same", Json.bool same), ("diff", Json.str (if same then "" else if decodeDiff != "" then decodeDiff ++ s!" real {String.ofList doc}" else s!"model {String.ofList model} real {String.ofList doc}")),
               ("fails", Json.arr (fails.map afailJson).toArray),
-              ("feat", Json.mkObj [("via", Json.str (jstr (jget inp "via"))), ("nvalues", Json.num (valsIn.getD []).length)])]
+              ("feat", Json.mkObj [("via", Json.str (jstr (jget inp "via"))), ("nvalues", Json.num (valsIn.getD []).length),
+                                   ("decoded", Json.bool decoded.isSome)])]
 where
   -- a total order on all six fields: entries that differ only in uid must not keep their input order
   canonValuesUid (vs : List RawValue) : List RawValue :=
